@@ -264,6 +264,72 @@ fn large_collection(e: &Entry, rec: &Value, mv: &MV, want: &[u8], ver: u32, cx: 
     }
 }
 
+/// Command sequences of the shapes Introspect.tla explores (expand by key with disambiguator, select nth, up, nothing;
+/// depths 0..2; with and without a child limit), the keys being taken from what the value itself reports.
+fn nav_battery(val: &dyn savefile::Introspect) -> Vec<Value> {
+    use savefile::{IntrospectedElementKey, Introspector, IntrospectorNavCommand as Cmd};
+    use std::panic::{catch_unwind, AssertUnwindSafe};
+    let mut fails = vec![];
+    // keys of the top frame and of the first child's frame
+    let mut keys: Vec<(usize, String, usize)> = vec![];
+    if let Ok(Ok(res)) = catch_unwind(AssertUnwindSafe(|| Introspector::new().do_introspect(val, Cmd::SelectNth { select_depth: 0, select_index: 0 }))) {
+        for fr in res.frames.iter().take(2) {
+            for kv in fr.keyvals.iter().take(3) {
+                keys.push((kv.key.depth, kv.key.key.clone(), kv.key.key_disambiguator));
+            }
+        }
+    }
+    let mut seqs: Vec<Vec<Cmd>> = vec![vec![Cmd::Nothing], vec![Cmd::Up], vec![Cmd::Nothing, Cmd::Up, Cmd::Up]];
+    for d in 0..3usize {
+        for i in [0usize, 1, 2, 7] {
+            seqs.push(vec![Cmd::SelectNth { select_depth: d, select_index: i }]);
+            seqs.push(vec![Cmd::SelectNth { select_depth: 0, select_index: 0 }, Cmd::SelectNth { select_depth: d, select_index: i }, Cmd::Up]);
+        }
+    }
+    for (d, k, dis) in keys.iter() {
+        for dd in [*d, d + 1] {
+            for ds in [*dis, dis + 1] {
+                let key = IntrospectedElementKey { depth: dd, key: k.clone(), key_disambiguator: ds };
+                seqs.push(vec![Cmd::ExpandElement(key.clone())]);
+                seqs.push(vec![Cmd::ExpandElement(key.clone()), Cmd::SelectNth { select_depth: dd + 1, select_index: 1 }, Cmd::ExpandElement(key), Cmd::Up]);
+            }
+        }
+    }
+    seqs.push(vec![Cmd::ExpandElement(IntrospectedElementKey { depth: 0, key: "no such key".to_string(), key_disambiguator: 0 })]);
+    for limit in [usize::MAX, 0, 1, 2] {
+        for (n, seq) in seqs.iter().enumerate() {
+            let mut insp = if limit == usize::MAX { Introspector::new() } else { Introspector::new_with(limit) };
+            for (step, cmd) in seq.iter().enumerate() {
+                let r = catch_unwind(AssertUnwindSafe(|| insp.do_introspect(val, cmd.clone())));
+                match r {
+                    Err(_) => {
+                        fails.push(json!({"check": "c17.real.nav.panic", "detail": format!("limit {:?} sequence #{} {:?}: do_introspect panicked at step {}", limit, n, seq, step)}));
+                        break;
+                    }
+                    Ok(Err(_)) => {}
+                    Ok(Ok(res)) => {
+                        let total = res.total_len();
+                        for i in 0..total + 2 {
+                            match catch_unwind(AssertUnwindSafe(|| res.total_index(i).is_some())) {
+                                Err(_) => fails.push(json!({"check": "c17.real.total_index.panic", "detail": format!("limit {:?} sequence {:?}: total_index({}) panicked (total_len {})", limit, seq, i, total)})),
+                                Ok(some) => {
+                                    if some != (i < total) {
+                                        fails.push(json!({"check": "c17.real.total_index.dense", "detail": format!("limit {:?} sequence {:?}: total_index({}) is {} although total_len = {}", limit, seq, i, if some { "Some" } else { "None" }, total)}));
+                                    }
+                                }
+                            }
+                        }
+                    }
+                }
+                if fails.len() > 3 {
+                    return fails;
+                }
+            }
+        }
+    }
+    fails
+}
+
 /// C03 / C18: bytes written by one program version, read by another.
 fn evo_one(reg: &HashMap<String, Entry>, rec: &Value, cx: &mut Ctx) {
     let mode = rec["mode"].as_str().unwrap();
@@ -692,6 +758,13 @@ fn main() {
                                 }
                                 other => fails.push(json!({"check": "c17.len.panic", "detail": format!("{:?}", other)})),
                             }
+                            // navigation over the REAL value: the invariants of Introspect.tla (NoPanic, TotalIndexDense)
+                            // on the real Introspect impls of library and derived types
+                            io.with_introspect(&mv, &mut |val| {
+                                for f in nav_battery(val) {
+                                    fails.push(f);
+                                }
+                            });
                         }
                     }
                 }
